@@ -51,5 +51,8 @@ func Run(c *fw.Ctx) {
 	if only == "" || strings.Contains(only, "l2") {
 		runL2All(c)
 	}
+	if only == "" || strings.Contains(only, "l3") {
+		runL3All(c)
+	}
 	_ = fmt.Sprint
 }
